@@ -546,6 +546,18 @@ impl<'src> Walker<'src>
 		{
             let c = self.char_at(byte_index);
 
+            // Comments are not part of the argument's text
+            if c == ';'
+            {
+                let token = self.token_at(byte_index);
+
+                if token.kind == syntax::TokenKind::Comment
+                {
+                    byte_index += token.span.length();
+                    continue;
+                }
+            }
+
             if c.eq_ignore_ascii_case(&wanted_char) &&
                 seen_tokens &&
                 paren_nesting == 0 &&
